@@ -168,7 +168,7 @@ def run_tg_case(case):
 def enum_interval(tier, shard, nshards):
     from props.c07 import _grid_tiers
 
-    G, k = (6, 3) if tier == "quick" else (8, 4)
+    G, k = (5, 3) if tier == "quick" else (8, 4)
     vals = [x / 2 for x in range(0, 2 * G + 1)]
     i = 0
     for ents in _grid_tiers(G, k):
